@@ -73,3 +73,19 @@ Proof.
   split; [vm_compute; reflexivity|]. cbn. intros H. inversion H as [|? ? Hn _]. apply Hn. left. reflexivity.
 Qed.
 Print Assumptions C10_greedy_dup_refuted.
+(* ... and when the duplicate offer finds room on the pool that already holds the task, WorkerPool.place_task refuses
+   it (/repo 17757a8) and schedule() raises: not even "returns normally" holds on F10 inputs *)
+Theorem C10_greedy_dup_raises : exists (offered : list (task SL)) c,
+  schedule SL edf false true 0 c offered = Err 3.
+Proof.
+  exists [stask 0 (mkTA 10 0 3 0) [mkSS 3 [(0, 1)]]; stask 0 (mkTA 10 0 3 0) [mkSS 3 [(0, 1)]]], [(0, [[mkE 0 0 2]])].
+  vm_compute. reflexivity.
+Qed.
+Print Assumptions C10_greedy_dup_raises.
+(* on inputs where every task is offered once the guard never fires: a successful schedule is a successful run *)
+Theorem C10_greedy_no_raise_without_dups : forall L P e pre now (c : cluster L) offered ds cf,
+  NoDup (map (@t_id L) offered) ->
+  run L P e now (virtual L P pre c) (ordered L P now offered) = Ok (ds, cf) ->
+  schedule_full L P e pre now c offered = Ok (ds, cf).
+Proof. exact schedule_full_nodup. Qed.
+Print Assumptions C10_greedy_no_raise_without_dups.
